@@ -66,6 +66,7 @@ type hcExchange struct {
 	RShort   int         `json:"rshort"` // >0: declare RBodyLen, send RShort bytes fewer, then close
 	RReset   bool        `json:"rreset"` // reset the backend connection in the middle of the body
 	RInc     bool        `json:"rincompressible"`
+	ReqGzip   bool       `json:"req_gzip"`   // C03: the client's body is gzip-compressed and labelled Content-Encoding: gzip
 	ReqShort  int        `json:"req_short"`  // C07: the client sends this many bytes fewer than its framing promises (declared length, or the chunk stream incl. its terminator), then half-closes
 	FailFirst int        `json:"fail_first"` // the first n attempts are answered 502 (a failure code) by the backend
 }
@@ -786,6 +787,10 @@ func hcReadResponse(br *bufio.Reader, method string) *hcResp {
 
 func hcEncodeRequest(id string, ex *hcExchange, hostHdr string) (head []byte, body []byte, plain []byte) {
 	plain = hcBody("q"+id, ex.BodyLen, ex.Inc)
+	wire := plain
+	if ex.ReqGzip && len(plain) > 0 {
+		wire = hcGzip(plain)
+	}
 	var b bytes.Buffer
 	target := ex.Path
 	if ex.Query != "" {
@@ -805,6 +810,9 @@ func hcEncodeRequest(id string, ex *hcExchange, hostHdr string) (head []byte, bo
 	if ex.AcceptEnc != "" {
 		fmt.Fprintf(&b, "Accept-Encoding: %s\r\n", ex.AcceptEnc)
 	}
+	if ex.ReqGzip && len(plain) > 0 {
+		b.WriteString("Content-Encoding: gzip\r\n")
+	}
 	if ex.Chunked {
 		b.WriteString("Transfer-Encoding: chunked\r\n\r\n")
 		var cb bytes.Buffer
@@ -812,23 +820,23 @@ func hcEncodeRequest(id string, ex *hcExchange, hostHdr string) (head []byte, bo
 		if sz <= 0 {
 			sz = 1 << 20
 		}
-		for off := 0; off < len(plain); off += sz {
+		for off := 0; off < len(wire); off += sz {
 			end := off + sz
-			if end > len(plain) {
-				end = len(plain)
+			if end > len(wire) {
+				end = len(wire)
 			}
 			fmt.Fprintf(&cb, "%x\r\n", end-off)
-			cb.Write(plain[off:end])
+			cb.Write(wire[off:end])
 			cb.WriteString("\r\n")
 		}
 		cb.WriteString("0\r\n\r\n")
 		return b.Bytes(), cb.Bytes(), plain
 	}
 	if len(plain) > 0 || ex.Method == "POST" || ex.Method == "PUT" || ex.Method == "PATCH" {
-		fmt.Fprintf(&b, "Content-Length: %d\r\n", len(plain))
+		fmt.Fprintf(&b, "Content-Length: %d\r\n", len(wire))
 	}
 	b.WriteString("\r\n")
-	return b.Bytes(), plain, plain
+	return b.Bytes(), wire, plain
 }
 
 // hcDo performs one exchange on the client's connection (dialling if needed).
